@@ -127,6 +127,38 @@ def string_edges(rec, pvl):
                                   msg)
 
 
+# Words that begin like a date or a time and end like a zone offset, but are in
+# no dialect's date/time notation (offsets belong to times; seconds = 60 takes
+# no offset): in the two permissive grammars, where '+' and ':' are ordinary
+# characters, they are unquoted strings.
+NEARLY_TEMPORAL = ("1990-07-04+05", "1990-185+5", "1990-07-04-05", "12:00:60+05",
+                   "2001-01-01+00:30", "2001-001-0130", "1990-07+05", "12:00:60-0530",
+                   "2015-06-30T23:59:60+01")
+
+
+def nearly_temporal(rec, pvl):
+    from .. import datespec
+    for reader in ("default", "ISIS"):
+        for w in NEARLY_TEMPORAL:
+            assert datespec.read(w, reader)[0] == "not-temporal", w
+            for shape, text, tree in (
+                    ("alone", f"a = {w}\nEND\n", [("a", w)]),
+                    ("in-sequence", f"s = (1, {w}, x)\nEND\n", [("s", [1, w, "x"])]),
+                    ("in-block", f"GROUP = g\n  a = {w}\nEND_GROUP\nEND\n",
+                     [("g", gt.Block("group", [("a", w)]))])):
+                st, res = load(pvl, reader, text)
+                rec.count("nearly_temporal_loads")
+                rec.case((reader, "nearly-temporal", w, shape), True)
+                if st == "ok" and gt.same_tree(tree, res) is None:
+                    rec.count(f"agree[{reader}]")
+                    continue
+                rec.violation(CHECK, reader, "spelling-rejected-or-misread",
+                              {"spelling": "unquoted:nearly-temporal", "shape": shape,
+                               "outcome": st if st != "ok" else "loaded-differently"},
+                              {"reader": reader, "text": text, "expected": repr(tree)},
+                              f"{st}: {res!r}"[:300])
+
+
 _LONG_LIVED = {}
 
 
@@ -198,6 +230,7 @@ def shard(i, n, tier, seed, rec, hb):
     per = 2400 if tier == "quick" else 150000
     if i == 0:
         string_edges(rec, pvl)
+        nearly_temporal(rec, pvl)
     for reader in common.rotated(gt.READERS, i):
         for j in range(i, per, n):
             hb.beat()
@@ -212,7 +245,7 @@ def finish_kwargs(rec, tier):
         reader, cls, ctx = k[len("matrix["):-1].split("][")
         matrix.setdefault(reader, {}).setdefault(cls, {})[ctx] = v
     req = [f"agree[{r}]" for r in gt.READERS]
-    req += ["loads_through_a_long_lived_parser", "string_edge_loads",
+    req += ["loads_through_a_long_lived_parser", "string_edge_loads", "nearly_temporal_loads",
             "preceded_by_other_configuration[decimal]",
             "preceded_by_other_configuration[other-dialect]"]
     return dict(extra_cov={"matrix_cells_hit": len(cells), "matrix": matrix},
